@@ -192,12 +192,21 @@ let dec_query (l : string list) : Parser.query =
         q_bucket = tb; q_group = gb; q_seq = links ls }
   | _ -> raise (Bad "query")
 
+let with_fallback fx b =
+  match Command.parse_command fx b with
+  | Command.PDomain ->
+      (match Command.peg_fallback fx b with
+       | Some r -> "DOMAIN|" ^ presult r
+       | None -> "DOMAIN")
+  | r -> presult r
+
 let run (t : string list) : string =
   match t with
-  | ["parse_cmd"; h] -> presult (Command.parse_command false (bytes_of_hex h))
-  | ["parse_fix"; h] -> presult (Command.parse_command true (bytes_of_hex h))
+  | ["parse_cmd"; h] -> with_fallback false (bytes_of_hex h)
+  | ["parse_fix"; h] -> with_fallback true (bytes_of_hex h)
   | ["parse_disp"; h] ->
       (match Command.parse_command false (bytes_of_hex h) with
+       | Command.POk (Command.CStore (_, _, json)) -> "S " ^ hs json   (* JSON validity is decided in the comparison *)
        | Command.POk c -> if Command.dispatch_handled (Command.kind_of c) then "RESP" else "PANIC"
        | Command.PErr -> "NOPARSE"
        | Command.PPanic _ -> "PANIC"
